@@ -645,17 +645,22 @@ def main():
         cfgs = [(3, 1), (4, 2)] + ([(5, 3), (6, 2), (5, 1)] if thorough else [])
         for n, d in cfgs:
             chk.case("xgrid.target.generic.%s.n%d.deg%d" % (tag, n, d), case_xgrid_target, mode=mode, n=n, deg=d,
-                     tspec=[0] + [("in", k) for k in range(0, n - 1, 2)] + [n - 1])
-            chk.case("xgrid.target.close.%s.n%d.deg%d" % (tag, n, d), case_xgrid_target, mode=mode, n=n, deg=d,
-                     tspec=[("near", 0)] + list(range(1, n)))
+                     tspec=[0] + [("in", k) for k in range(0, n - 1)] + [n - 1])
             chk.case("xgrid.input.generic.%s.n%d.deg%d" % (tag, n, d), case_xgrid_input, mode=mode, n=n, deg=d,
                      sspec=[("below", 0)] + [("in", k) for k in range(0, n - 1)] + [n - 1])
+            # new grids of the same length that differ from the old one at a single node: the 'close' early exit is reachable
+            chk.case("xgrid.target.close.%s.n%d.deg%d" % (tag, n, d), case_xgrid_target, mode=mode, n=n, deg=d,
+                     tspec=[("near", 0)] + list(range(1, n)))
             chk.case("xgrid.input.close.%s.n%d.deg%d" % (tag, n, d), case_xgrid_input, mode=mode, n=n, deg=d,
                      sspec=[0] + [("near", 1)] + list(range(2, n)))
         chk.case("xgrid.both.%s.n3.deg1" % tag, case_xgrid_input, mode=mode, n=3, deg=1, sspec=[0, ("in", 0), ("in", 1), 2], also_target=True)
     chk.case("errors", case_errors)
     import eko.io.manipulate  # noqa: F401  imported once per run; case workers are forked from here
-    return chk.run()
+    C34.clear_markers()
+    try:
+        return chk.run()
+    finally:
+        C34.clear_markers()
 
 
 if __name__ == "__main__":
